@@ -55,13 +55,28 @@ type limitErr struct{ what string }
 func (e limitErr) Error() string { return e.what + " limit exceeded" }
 
 var variants = []string{"plain", "plain", "plain", "panic", "assert", "pre", "post", "syntax", "typeerr",
-	"complimit", "memlimit", "script", "script", "scriptfail", "execfail"}
+	"complimit", "memlimit", "script", "script", "scriptfail", "execfail", "deploy", "deployfail", "deployremove"}
+
+func contractCode(name string) string {
+	return fmt.Sprintf("access(all) contract %s { access(all) var n: Int; access(all) let xs: [Int]; init() { self.n = 1; self.xs = [1, 2, 3] } access(all) fun bump() { self.n = self.n + 1 } }", name)
+}
 
 // inject rewrites the rendered transaction source according to the variant.
-func inject(src, variant string) (string, string) {
+func inject(src, variant string, uniq int) (string, string) {
 	kind := "tx"
 	closePrepare := "  }\n}\n"
 	switch variant {
+	case "deploy", "deployfail", "deployremove":
+		name := fmt.Sprintf("K%d", uniq)
+		src = strings.Replace(src, "A1: auth(Storage) &Account", "A1: auth(Storage, Contracts) &Account", 1)
+		stmt := fmt.Sprintf("    A1.contracts.add(name: %q, code: \"%x\".decodeHex())\n", name, contractCode(name))
+		if variant == "deployremove" {
+			stmt += fmt.Sprintf("    A1.contracts.remove(name: %q)\n", name)
+		}
+		if variant == "deployfail" {
+			stmt += "    panic(\"after deploy\")\n"
+		}
+		src = strings.Replace(src, closePrepare, stmt+closePrepare, 1)
 	case "panic":
 		src = strings.Replace(src, closePrepare, "    panic(\"injected\")\n"+closePrepare, 1)
 	case "assert":
@@ -139,7 +154,7 @@ func main() {
 				cur = cur[:len(cur)-1] // the injector supplies the failure; avoid unreachable code
 			}
 			engine := host.Engines[h(seed, "e", b.ID, txi)%uint32(len(host.Engines))]
-			src, kind := inject(Render(cur), variant)
+			src, kind := inject(Render(cur), variant, b.ID*1000+txi)
 			w.ComputationGauge, w.MemoryGauge = nil, nil
 			if variant == "complimit" {
 				budget := uint64(1 + h(seed, "c", b.ID, txi)%60)
